@@ -561,6 +561,7 @@ package rux
 //@   requires[C12, C04] middleware_in_effect: len(r.currentGroupHandlers) == entry(len(r.currentGroupHandlers)) + len(middles)
 //@       && (forall i int :: 0 <= i && i < entry(len(r.currentGroupHandlers)) ==> r.currentGroupHandlers[i] == entry(r.currentGroupHandlers[i]))
 //@       && (forall i int :: 0 <= i && i < len(middles) ==> r.currentGroupHandlers[entry(len(r.currentGroupHandlers)) + i] == middles[i])
+//@   stable r.currentGroupPrefix, r.currentGroupHandlers, allelems([]HandlerFunc)
 //@   modifies r.currentGroupHandlers, allelems([]HandlerFunc), allelems([]*Route), allelems([]string), allfields(Route), r.counter, r.cachedRoutes
 //@   modifies entries(r.stableRoutes), entries(r.regularRoutes), entries(r.irregularRoutes), entries(r.namedRoutes), regCount(r), regAt(r, _)
 //@   panics *
@@ -569,7 +570,7 @@ package rux
 //@       ==> cell([]HandlerFunc, a, j) == old(cell([]HandlerFunc, a, j))
 //
 //@ spec disjointHF(a []HandlerFunc, b []HandlerFunc) bool = arr(a) != arr(b) || arr(a) == nil
-//@ func (*Router).Group [C12, C04]
+//@ func (*Router).Group [C12, C04, C16]
 //@   requires lists_not_aliased: disjointHF(middles, r.currentGroupHandlers) && disjointHF(r.handlers, r.currentGroupHandlers) && disjointHF(r.handlers, middles)
 //@   modifies r.currentGroupPrefix, r.currentGroupHandlers, allelems([]HandlerFunc), allelems([]*Route), allelems([]string), allfields(Route), r.counter, r.cachedRoutes
 //@   modifies entries(r.stableRoutes), entries(r.regularRoutes), entries(r.irregularRoutes), entries(r.namedRoutes), regCount(r), regAt(r, _)
@@ -1395,6 +1396,8 @@ package rux
 //@   ensures s == uf("rt.name", string, self)
 //
 //@ func (*Router).Resource [C16]
+//@   requires registration_time: tablesWF(r) && tablesSep(r) && noCacheEntries(r) && methodsTable() && varRegex != nil && restTable()
+//@   requires names_ok: namesOK(uf("lower", string, uf("rt.name", string, uf("rt.elem", any, uf("rv.type", any, uf("rv.of", ref, controller))))))
 //@   requires lists_not_aliased: disjointHF(middles, r.currentGroupHandlers) && disjointHF(r.handlers, r.currentGroupHandlers) && disjointHF(r.handlers, middles)
 //@   modifies r.currentGroupPrefix, r.currentGroupHandlers, allelems([]HandlerFunc), allelems([]*Route), allelems([]string), allfields(Route), r.counter, r.cachedRoutes
 //@   modifies entries(r.stableRoutes), entries(r.regularRoutes), entries(r.irregularRoutes), entries(r.namedRoutes), regCount(r), regAt(r, _)
